@@ -89,7 +89,7 @@ def add_words(r, o, n=None, forbidden=""):
 
 def gen_secrets(r, n, classes=None, words=()):
     """n secret identities with an `a` value and a same-shape `b` value (paired world)."""
-    classes = classes or ["text", "text", "num", "hex", "t7", "md5", "sha", "j9p"]
+    classes = classes or ["text", "text", "num", "hex", "t7", "md5", "sha", "j9p", "j9p", "j9p-num", "j9p-hex", "c9"]
     out = {}
     used = set()
     for i in range(n):
@@ -99,7 +99,7 @@ def gen_secrets(r, n, classes=None, words=()):
         for _ in range(50):
             a = G.gen_secret(r, cls)
             b = G.gen_secret(r, cls, length=len(a), like=a)
-            want = "text" if cls in ("j9p", "aws") else cls
+            want = {"j9p": "text", "aws": "text", "j9p-num": "num", "j9p-hex": "hex", "c9": "j9"}.get(cls, cls)
             ok = (G.classify(a) == want and G.classify(b) == want and len(a) == len(b) and a != b
                   and a not in used and b not in used
                   and not any(w.lower() in a.lower() or w.lower() in b.lower() for w in words))
@@ -113,7 +113,7 @@ def gen_secrets(r, n, classes=None, words=()):
 
 
 def slot_class(cls):
-    if cls == "j9p":
+    if cls in ("j9p", "j9p-num", "j9p-hex", "c9"):
         return "j9"
     if cls.startswith("md5"):
         return "md5"
@@ -151,7 +151,7 @@ def secret_line(r, ctx, secrets, kinds=("keep", "scrub"), ident=None, templates=
                 i = r.choice(cand) if (first or ident is None) else r.choice(cand)
                 first = False
                 meta = {"id": int(i), "kind": kind}
-                if secrets[i]["cls"] == "j9p":
+                if secrets[i]["cls"].startswith("j9p"):
                     meta.update(enc="j9", salt=r.choice(G.J9_ALPHA), fill=r.choice("nQz7i"))
                 segs.append(["sec", "", meta])
         # merge adjacent literals
